@@ -208,6 +208,15 @@ def lattice(ctx, far):
         if okc:
             ctx.check("C01.point2index.face", got[ax] == (n[ax] - 1 if up else 0),
                       got=got, axis=ax, up=up, spec=spec.describe())
+    # infinitely far away / not a number: not points of the region
+    for bad in (np.inf, -np.inf, np.nan):
+        ax = int(rng.integers(0, nd))
+        p = spec.pmin + rng.uniform(0.05, 0.95, nd) * edges
+        p[ax] = bad
+        ctx.expect_raises("C01.point2index.outside_rejected", mesh.point2index, p,
+                          what={"p": p, "axis": ax, "non_finite": True, "spec": spec.describe()})
+        ctx.check("C01.region.contains", not bool(p in mesh.region), p=p,
+                  note="non-finite point reported as contained", spec=spec.describe())
     for _ in range(6):
         p = spec.pmin + rng.uniform(fmin, 1 - fmin, nd) * edges
         ctx.check("C01.region.contains", bool(p in mesh.region), p=p,
@@ -248,6 +257,26 @@ def by_cell(ctx):
         ctx.expect_raises("C01.bycell.incommensurate_rejected",
                           lambda: df.Mesh(region=region, cell=pickarg(rng, bad, nd)),
                           what={"cell": bad, "axis": ax, "m+f": m + f, "spec": spec.describe()})
+    # many cells along one axis: the decision is still about a fraction of ONE cell
+    ax = int(rng.integers(0, nd))
+    big = int(10 ** rng.uniform(1.5, 4))
+    ncells = n.copy()
+    ncells[ax] = big
+    cell_big = edges / ncells
+    ok, mesh = ctx.expect_ok("C01.bycell.commensurate_accepted",
+                             lambda: df.Mesh(region=region, cell=pickarg(rng, cell_big, nd)),
+                             what={"cell": cell_big, "n": ncells, "spec": spec.describe(), "big": True})
+    if ok:
+        ctx.check("C01.bycell.n", np.array_equal(mesh.n, ncells), got=mesh.n, expected=ncells,
+                  big=True, spec=spec.describe())
+    for _ in range(3):
+        f = rng.uniform(0.01, 0.99)
+        bad = cell_big.copy()
+        bad[ax] = edges[ax] / (big + f)
+        ctx.expect_raises("C01.bycell.incommensurate_rejected",
+                          lambda: df.Mesh(region=region, cell=pickarg(rng, bad, nd)),
+                          what={"cell": bad, "axis": ax, "m+f": big + f, "big": True,
+                                "spec": spec.describe()})
     # non-positive cell, wrong length, both/neither of n and cell
     ctx.expect_raises("C01.bycell.malformed_rejected",
                       lambda: df.Mesh(region=region, cell=(-cell).tolist()))
